@@ -21,6 +21,17 @@ CLAIMED = {
             "DESIGN.md §5 C05"),
 }
 
+CLAIMED["C06"] = (
+    "model_checking",
+    "TLA+ clauses per answer kind (Responses) over all 513 bus outcomes, kinds tied to the standard's answer column "
+    "(StdTables); every response class x every outcome recorded from the real objects and judged by TLC",
+    "Exhaustive: the input space (34 response classes x 513 outcomes + constructor argument types) is finite and "
+    "enumerated completely; TLC decides each cell against the specification; ResponsesModel shows the clauses are "
+    "satisfiable and tell the kinds apart.",
+    "Trusted: TLC; my transcription of the answer column / bit positions (rows marked doc are pins); the harness's "
+    "classification of a Python value into none/bool/int/str/frame/enum/exception.",
+    "DESIGN.md §5 C06")
+
 NOT_YET = {}
 
 
